@@ -14,7 +14,7 @@ func (f *Formatter) formatExpression(expr ast.Expression) *ChunkBuffer {
 	buf := f.chunkBuffer()
 
 	// leading comment
-	if v := f.formatComment(expr.GetMeta().Leading, "", 0); v != "" {
+	if v := f.formatCommentWith(expr.GetMeta().Leading, "", 0, false); v != "" {
 		buf.Write(v, Comment)
 	}
 
@@ -51,7 +51,7 @@ func (f *Formatter) formatExpression(expr ast.Expression) *ChunkBuffer {
 	}
 
 	// trailing comment
-	if v := f.formatComment(expr.GetMeta().Trailing, "", 0); v != "" {
+	if v := f.formatCommentWith(expr.GetMeta().Trailing, "", 0, false); v != "" {
 		buf.Write(v, Comment)
 	}
 
